@@ -309,12 +309,12 @@ class Rpc(WorldStream):
         i, w = self.world_of(case)
         table = w.local_table()
 
-        def cfg():
-            c = self.C.Config(version=case["version"])
+        def cfg(version=case["version"]):
+            c = self.C.Config(version=version, **({"serialize_method": case["ser"]} if case.get("ser") else {}))
             for n, k in table.items():
                 c.classes.add(k, n)
             return c
-        disp = self.Disp(config=cfg())
+        disp = self.Disp(config=cfg(case.get("sversion", case["version"])))
         received = []
         obj_for_result = w.build(case["value"])
 
@@ -372,11 +372,49 @@ class Rpc(WorldStream):
         return {"value": W.dv_to_json(case["value"]), "as": case["as"], "version": case["version"], "arrived": d_outcome(obs["got"])}
 
     def to_replay(self, case):
-        return dict(WorldStream.to_replay(self, case), **{"as": case["as"], "version": case["version"]})
+        return dict(WorldStream.to_replay(self, case), **{"as": case["as"], "version": case["version"], "ser": case.get("ser"),
+                                                          "sversion": case.get("sversion")})
 
     def from_replay(self, j):
-        return dict(WorldStream.from_replay(self, j), **{"as": j["as"], "version": j["version"]})
+        c = dict(WorldStream.from_replay(self, j), **{"as": j["as"], "version": j["version"]})
+        if j.get("ser"):
+            c["ser"] = j["ser"]
+        if j.get("sversion"):
+            c["sversion"] = j["sversion"]
+        return c
+
+
+class RpcCfg(Rpc):
+    """the same exchange under a configuration with its own serialisation-method name, and with a server whose protocol
+    version differs from the client's (a 2.0 server answering a 1.0 client works on a copy of its configuration)"""
+    name = "rpc_cfg"
+    case_type = "nat * str * list (str * str) * val * res val"
+    check_fn = "(c07_rpcx_check WS)"
+    SER = "_to_wire"
+    n_worlds = {"quick": 2, "thorough": 6}
+    per_world = {"quick": 50, "thorough": 200}
+
+    def gen(self, tier, rng):
+        cases = []
+        for k in range(self.n_worlds[tier]):
+            descs = WG.gen_world(rng, "x%d" % k, ser_name=self.SER)
+            for v in self.corpus_values(descs) + self.gen_values(rng, descs, self.per_world[tier]):
+                if json_able(v):
+                    cver, sver = rng.choice([(1.0, 2.0), (1.0, 2.0), (2.0, 1.0), (1.0, 1.0), (2.0, 2.0)])
+                    cases.append({"world": descs, "value": v, "as": rng.choice(["param", "result", "result", "kwparam", "bparam", "bresult"]),
+                                  "version": cver, "sversion": sver, "ser": self.SER})
+        return cases
+
+    def encode(self, case, obs):
+        w = self.worlds[obs["world"]]
+        if obs["got"][0] != "ok":
+            return None
+        return "(%d%%nat, %s, %s, %s, %s)" % (obs["world"], G.g_str(case["ser"]), w.g_classes(obs["table"]), W.g_dv(obs["view"]),
+                                             W.g_outcome(obs["got"]))
+
+    def kind(self, case, obs):
+        return "server v%s / %s" % (case["sversion"], Rpc.kind(self, case, obs))
 
 
 def streams():
-    return [Direct(), Rpc()]
+    return [Direct(), Rpc(), RpcCfg()]
